@@ -389,7 +389,8 @@ class BundleFlattener(ElabPass):
             # Note at this point in elaboration, these Anon-Bundles are the sole remaining place `PortRef`s can hide.
             # They are also the last place where `BundleRef`s will be resolved,
             # although the others just have been, earlier in this elaborator pass.
-            if isinstance(attr, (BundleRef, PortRef)):
+            # A `PortRef` may in turn have resolved to a `BundleRef`, so keep going until neither remains.
+            while isinstance(attr, (BundleRef, PortRef)):
                 attr = self.resolve_bundleref(attr)
 
             if isinstance(attr, NoConn):  # Invalid
